@@ -13,7 +13,10 @@
 EXTENDS Integers, Sequences, FiniteSets, TLC, Json
 
 Preds == {"p", "q"}
-Items == { <<"cl", pr>> : pr \in Preds } \cup { <<"dyn", "p">>, <<"disc", "p">>, <<"multi", "p">>, <<"init">>, <<"dir">>, <<"syntax">>, <<"noncallable">> }
+CONSTANT PAIR         \* TRUE: the sub-space of texts whose declarations name BOTH predicates in one directive (a list or a comma sequence)
+Items == IF PAIR THEN { <<"cl", pr>> : pr \in Preds } \cup { <<"dyn", "pq">>, <<"disc", "pq">>, <<"multi", "pq">>, <<"dir">> }
+         ELSE { <<"cl", pr>> : pr \in Preds } \cup { <<"dyn", "p">>, <<"disc", "p">>, <<"multi", "p">>, <<"init">>, <<"dir">>, <<"syntax">>, <<"noncallable">> }
+Targets(x) == IF x = "pq" THEN Preds ELSE {x}
 
 NoPred == [def |-> FALSE, cls |-> <<>>, dyn |-> FALSE, multi |-> FALSE, disc |-> FALSE]
 EmptyDb == [pr \in Preds |-> NoPred]
@@ -84,9 +87,9 @@ Stage == /\ phase = "stage" /\ k <= Len(t[ti])
                    LET f == Flush(st, run) IN
                    IF ~f.ok THEN Fail("discontiguous")
                    ELSE /\ run' = NoRun /\ k' = k + 1
-                        /\ st' = (CASE it[1] = "dyn" -> [f.st EXCEPT ![it[2]].def = TRUE, ![it[2]].dyn = TRUE]
-                                    [] it[1] = "disc" -> [f.st EXCEPT ![it[2]].def = TRUE, ![it[2]].disc = TRUE]
-                                    [] it[1] = "multi" -> [f.st EXCEPT ![it[2]].def = TRUE, ![it[2]].multi = TRUE]
+                        /\ st' = (CASE it[1] = "dyn" -> [pr \in Preds |-> IF pr \in Targets(it[2]) THEN [f.st[pr] EXCEPT !.def = TRUE, !.dyn = TRUE] ELSE f.st[pr]]
+                                    [] it[1] = "disc" -> [pr \in Preds |-> IF pr \in Targets(it[2]) THEN [f.st[pr] EXCEPT !.def = TRUE, !.disc = TRUE] ELSE f.st[pr]]
+                                    [] it[1] = "multi" -> [pr \in Preds |-> IF pr \in Targets(it[2]) THEN [f.st[pr] EXCEPT !.def = TRUE, !.multi = TRUE] ELSE f.st[pr]]
                                     [] OTHER -> f.st)
                         /\ goals' = (IF it[1] = "init" THEN Append(goals, Id) ELSE goals)
                         /\ out' = (IF it[1] = "dir" THEN Append(out, Id) ELSE out)       \* a directive runs at its position
